@@ -107,17 +107,19 @@ PROPS = {
                 level_text='C04_bound / C04_history: every SetDesiredCapacity value and every fleet request, on top of the desired size at that moment, is <= min(max_nodes, cloud max), for all inputs and histories; '
                            'C04_clamp_exact: the clamp lands exactly on the bound and yields no request without headroom. Tie: hist correspondence on resize calls (arguments) + monitor.',
                 level_note=LEVEL_NOTE),
-    'C05': dict(level='proof', module='EscProofs.P.C05',
+    'C05': dict(level='proof', module='EscProofs.P.Rne',
                 streams=dict(quick=[('arith', ['-n', 40000, '-dir', '@ROOT/corpus/C05']), ('hist', ['-n', 300, '-scans', 10, '-focus', 'up'])],
                              thorough=[('arith', ['-n', 3000000, '-dir', '@ROOT/corpus/C05']), ('hist', ['-n', 15000, '-scans', 12, '-focus', 'up'])],
                              search=[('arith', ['-n', 300000, '-dir', '@ROOT/corpus/C05']), ('hist', ['-n', 1500, '-scans', 12, '-focus', 'up'])]),
                 aspects=['pct-kind', 'pct-bits', 'delta', 'delta-err', 'panic', 'hist:resize', 'hist:untaints'], monitors=['C05'],
                 theorems=['Esc.P.C05_exact_formula', 'Esc.P.C05_ceil_sufficient_minimal', 'Esc.P.C05_delta_is_max', 'Esc.P.C05_from_zero_exact',
-                          'Esc.P.C05_from_zero_no_cache', 'Esc.P.C05_float_short_witness'],
-                technique='Lean 4 theorem over exact rationals (the formula is the minimal sufficient node count; from-zero variants) + bit-exact differential correspondence of the float pipeline (binary64 round-to-nearest-even implemented in the model) + exact-rational monitor of the observed delta; partial',
+                          'Esc.P.C05_from_zero_no_cache', 'Esc.P.C05_float_short_witness',
+                          'Esc.P.C05_float_error', 'Esc.P.C05_float_within_one', 'Esc.P.C05_from_zero_float_error', 'Esc.P.C05_from_zero_within_one',
+                          'Esc.P.StdModel_rne64', 'Esc.P.C05_rne64_within_one'],
+                technique='Lean 4 theorems: over exact rationals the formula is the minimal sufficient node count (and the from-zero variants); over any rounding function satisfying the standard model of floating-point arithmetic the float pipeline is within (n/T)(8uP+4uT) of the exact value, hence within one node; the model\'s binary64 round-to-nearest-even satisfies that model with u=2^-53 (proved) and is tied to Go bit for bit by the differential correspondence; exact-rational monitor of every observed delta; partial',
                 level_text='PARTIAL. Exact layer proved: n + ceil(n*((pct-T)/T)) = ceil(100R/(sT)) for n>0 equal nodes, which is sufficient and minimal (C05_exact_formula, C05_ceil_sufficient_minimal); the delta is the max over CPU and memory; from zero: ceil(100R/(cT)) with the cached size, '
                            'exactly 1 without cache; composition untainted + requested = delta unless clamped (C07_remainder). Float layer: the model executes binary64 round-to-nearest-even on rationals (rne64) and is compared bit for bit (Float64bits) with Go on every case; '
-                           'the statement "float result >= exact need" is false at extreme magnitudes (C05_float_short_witness, finding T2) and the within-+1 bound for the float result is monitored (exact-rational oracle on each observed delta), not proved.',
+                           'the statement "float result >= exact need" is false at extreme magnitudes (C05_float_short_witness, finding T2). Proved instead: for every rounding function obeying the standard model with unit round-off u (relative error <= u per operation, integers up to 2^53 exact) the value that is ceiled differs from the exact one by at most (n/T)(8uP+4uT) = 8u*N + 4u*n (C05_float_error; from zero: 4u*N, C05_from_zero_float_error), so the requested count is within one node of the exact minimal count whenever that budget is below 1 (C05_float_within_one, C05_from_zero_within_one); rne64, the function the driver executes and Go is compared with bit for bit, obeys the standard model with u = 2^-53 (StdModel_rne64, C05_rne64_within_one). Not proved: that the float result is never one short inside the budget region (it can be: the exact-rational monitor on each observed delta reports a short result that is not the listed finding).',
                 level_note=LEVEL_NOTE + ' Go float64 arithmetic = IEEE-754 binary64 RNE (checked bit-for-bit against the model on every run, not proved).'),
     'C06': dict(level='proof', module='EscProofs.P.C06', streams=hist('C06', focus='bands'),
                 aspects=['hist:taintadds', 'hist:untaints', 'hist:resize', 'hist:delta'], monitors=['C06'],
